@@ -249,29 +249,60 @@ func init() {
 			}
 			fns := p.FuncsInPkg("pkg/prune")
 			r.Analysed = len(fns)
+			isMarkStore := func(in ssa.Instruction) bool {
+				st, ok := in.(*ssa.Store)
+				if !ok {
+					return false
+				}
+				ia, ok := st.Addr.(*ssa.IndexAddr)
+				if !ok {
+					return false
+				}
+				sl, ok := ia.X.Type().Underlying().(*types.Slice)
+				if !ok {
+					return false
+				}
+				if bt, ok := sl.Elem().Underlying().(*types.Basic); !ok || bt.Kind() != types.Bool {
+					return false
+				}
+				c, ok := st.Val.(*ssa.Const)
+				return ok && c.Value != nil && c.Value.String() == "true"
+			}
+			// helpers that set a mark outside any loop of their own (the loop is their caller's)
+			markFn := map[*ssa.Function]bool{}
+			for round := 0; round < 2; round++ {
+				for _, fn := range fns {
+					for _, b := range fn.Blocks {
+						for _, in := range b.Instrs {
+							if enclosingLoop(b) != nil {
+								continue
+							}
+							if isMarkStore(in) {
+								markFn[fn] = true
+							} else if c, ok := in.(ssa.CallInstruction); ok {
+								if sc := c.Common().StaticCallee(); sc != nil && markFn[sc] {
+									markFn[fn] = true
+								}
+							}
+						}
+					}
+				}
+			}
 			for _, fn := range fns {
 				done := map[*ssa.BasicBlock]bool{}
 				n := 0
 				for _, b := range fn.Blocks {
 					for _, in := range b.Instrs {
-						st, ok := in.(*ssa.Store)
-						if !ok {
+						isMark := isMarkStore(in)
+						if c, ok := in.(ssa.CallInstruction); ok && !isMark {
+							if sc := c.Common().StaticCallee(); sc != nil && markFn[sc] {
+								isMark = true
+							}
+						}
+						if !isMark {
 							continue
 						}
-						ia, ok := st.Addr.(*ssa.IndexAddr)
-						if !ok {
-							continue
-						}
-						sl, ok := ia.X.Type().Underlying().(*types.Slice)
-						if !ok {
-							continue
-						}
-						if bt, ok := sl.Elem().Underlying().(*types.Basic); !ok || bt.Kind() != types.Bool {
-							continue
-						}
-						if c, ok := st.Val.(*ssa.Const); !ok || c.Value == nil || c.Value.String() != "true" {
-							continue
-						}
+						st := in
 						h := enclosingLoop(b)
 						if h == nil || done[h] {
 							continue
